@@ -367,7 +367,7 @@ pub fn worker_pairs_mode(global_seed: u64, from: u64, to: u64, scratch: &Path, s
             continue;
         };
         history.ops.truncate(target + 1);
-        let root = scratch.join("w");
+        let root = super::world_root(scratch, "w", seed);
         let mut prepared = match prepare(&history, target, &root, shim, seed) {
             Ok(Some(p)) => p,
             Ok(None) => {
@@ -476,7 +476,7 @@ fn minimise(rep: &FaultReplay, scratch: &Path, shim: &Shim) -> FaultReplay {
         // every candidate would have to run in its own process; keep the history as found
         return best;
     }
-    let root = scratch.join("min");
+    let root = super::world_root(scratch, "min", rep.seed);
     let mut i = 0;
     while i < best.target {
         let mut cand = best.clone();
@@ -507,7 +507,7 @@ fn minimise(rep: &FaultReplay, scratch: &Path, shim: &Shim) -> FaultReplay {
 }
 
 fn replay_once(rep: &FaultReplay, scratch: &Path, shim: &Shim) -> serde_json::Value {
-    let root = scratch.join("replay");
+    let root = super::world_root(scratch, "replay", rep.seed);
     let res = (|| -> Result<Option<(i64, i32, String, Vec<String>, String)>, String> {
         let Some(mut p) = prepare(&rep.history, rep.target, &root, shim, rep.seed)? else {
             return Ok(None);
